@@ -8,29 +8,29 @@ Context {D : Type}.
 
 Theorem C05_hook_exactly_once : forall (root : tree D) input d f r, run root input d f = Val r ->
   r_hook r = match r_err r with Some e => [e] | None => [] end.
-Proof. exact hook_exactly_once. Qed.
+Proof. apply hook_exactly_once. Qed.
 
 Theorem C05_exec_invokes_at_most_once : forall (self leaf : tree D) s,
   exists added, x_trace (xres_state (exec self leaf s)) = x_trace s ++ added /\ (length added <= 1)%nat.
-Proof. exact exec_invokes_at_most_once. Qed.
+Proof. apply exec_invokes_at_most_once. Qed.
 
 Theorem C05_first_error_aborts : forall fu (root leaf : tree D) s e s',
   unit_body root leaf s = UExec (XErr e s') -> unit_loop (S fu) root leaf s = Val (s', Some e).
-Proof. exact first_error_aborts. Qed.
+Proof. apply first_error_aborts. Qed.
 
 Theorem C05_stream_error_aborts : forall fu (root leaf : tree D) s e rest,
   x_toks s = IErr e :: rest -> unit_loop (S fu) root leaf s = Val (s, Some (std_error e)).
-Proof. exact stream_error_aborts. Qed.
+Proof. apply stream_error_aborts. Qed.
 
 Theorem C05_trace_bounded_by_units : forall (root : tree D) toks d f s e,
   run_tokens root toks d f = Val (s, e) -> (length (x_trace s) <= S (count_unit_seps toks))%nat.
-Proof. exact trace_bounded_by_units. Qed.
+Proof. apply trace_bounded_by_units. Qed.
 
 Theorem C05_leftover_is_108 : forall fu (root leaf : tree D) s leaf' s' tok rest,
   unit_body root leaf s = UExec (XOk leaf' s') -> x_toks s' = IOk tok :: rest ->
   (is_data tok = true \/ tok = TDataSeparator) ->
   unit_loop (S fu) root leaf s = Val (with_toks s' rest, Some (std_error ParameterNotAllowed)).
-Proof. exact leftover_is_108. Qed.
+Proof. apply leftover_is_108. Qed.
 
 End C05_statements.
 
